@@ -8,6 +8,7 @@ package verifharness
 import (
 	"bytes"
 	"context"
+	"crypto/ecdh"
 	"crypto/ecdsa"
 	"crypto/elliptic"
 	"crypto/rand"
@@ -304,6 +305,19 @@ func (e *realEnv) config(kid string, cid uint8, suite string, pub string) []byte
 	return encECHConfig(cid, 0x20, e.kr.privs[kid].PublicKey().Bytes(), [][2]uint16{{1, suiteAEAD[suite]}}, 50, []byte(pub))
 }
 
+var staleP256Key *ecdh.PrivateKey
+
+func staleP256() *ecdh.PrivateKey {
+	if staleP256Key == nil {
+		k, err := ecdh.P256().GenerateKey(rand.Reader)
+		if err != nil {
+			panic(err)
+		}
+		staleP256Key = k
+	}
+	return staleP256Key
+}
+
 func runReal(env *realEnv, sc realScen, r *mrand.Rand, w *ndWriter, pw *ndWriter, idx int) {
 	const public = "public.example.com"
 	inner := realName(r, sc.NameLen)
@@ -331,6 +345,9 @@ func runReal(env *realEnv, sc realScen, r *mrand.Rand, w *ndWriter, pw *ndWriter
 			outerName = "old-public.example.com"
 		}
 		clientCfgBytes = env.config("kx", 7, sc.Suite, outerName)
+		if idx%3 == 2 { // ... or the old config was for another KEM (DHKEM(P-256)): its enc cannot even seed an X25519 context
+			clientCfgBytes = encECHConfig(7, 0x0010, staleP256().PublicKey().Bytes(), [][2]uint16{{1, suiteAEAD[sc.Suite]}}, 50, []byte(outerName))
+		}
 	}
 	var retryWant []byte
 	{
